@@ -272,6 +272,8 @@ def run (ctx):
   _text_codec(ctx, repo, lof)
   _vendor_hook(ctx, repo, lof, nx)
   _lossless_switches(ctx, repo, lof, nx)
+  # ---- mechanisms this property shares with others
+  ctx.include('C02', ['make_type_to_unpacker_table'], "decoding starts from the type-indexed table of decoders this codec hands out")
 
 def _units (ctx, repo, mods):
   """R-UNITS: inside a decoder `length` (a parameter, or read from the structure's own header; `avail` likewise) counts bytes of this structure while the cursor, its saved start and len(raw) are
